@@ -37,6 +37,18 @@ pub fn doc_text(indent: &str, what: &str, name: &str) -> String {
     }
 }
 
+/// stands for the path of the module a declaration is written into (`m12::decl`, `d12`), see `fill_module_path`
+pub const BBV_PATH_PLACEHOLDER: &str = "__bbv_module_path__";
+
+/// replace the placeholder in a module file by the module's own path from the crate root
+pub fn fill_module_path(src: &str, module_name: &str) -> String {
+    if !src.contains(BBV_PATH_PLACEHOLDER) {
+        return src.to_string();
+    }
+    let path = if src.contains("pub mod decl {") { format!("{}::decl", module_name) } else { module_name.to_string() };
+    src.replace(BBV_PATH_PLACEHOLDER, &path)
+}
+
 pub fn lit(value: u128, radix: u8, underscore: bool) -> String {
     let s = match radix {
         16 => format!("{:x}", value),
@@ -227,6 +239,13 @@ pub fn render_field(l: &Layout, f: &Field, o: &RenderOpts) -> String {
     }
     let k = l.fields.iter().position(|x| std::ptr::eq(x, f)).unwrap_or(0);
     let wrapped = l.macro_wrap != 0;
+    // inside a macro_rules! body a type of the user's own is commonly written `$crate::path::Type`; the path of the
+    // declaring module is filled in where the source is written to a file (BBV_PATH_PLACEHOLDER). Not for
+    // `Option<..>` fields: the macro does not support `Option<$crate::E>` today.
+    let t = match &f.ty {
+        FieldTy::Enum { option: false, .. } | FieldTy::Nested { .. } if wrapped && k % 2 == 0 => format!("$crate::{}::{}", BBV_PATH_PLACEHOLDER, t),
+        _ => t,
+    };
     let t = match &f.array {
         Some(a) => format!("[{}; {}]", t, array_len_text(f, a)),
         None => t,
